@@ -375,11 +375,23 @@ pub fn c23_text_w(w: &mut crate::worker::Worker, text: &str) -> (Found, bool) {
     }
 }
 
+/// `next x` outside a fold over `x`: either the script folds with `x` somewhere else (the listed known finding is about
+/// that), or `x` is no fold iterator at all in the script (e.g. a scalar defined earlier).
+fn next_class(text: &str, why: &str) -> String {
+    let name = why.split('`').nth(1).and_then(|t| t.strip_prefix("next ")).unwrap_or("");
+    let folds_with_it = text.match_indices("(fold ").any(|(i, _)| text[i + 6..].split_whitespace().nth(1) == Some(name));
+    if folds_with_it {
+        "next-outside-its-fold".into()
+    } else {
+        "next-on-a-name-that-is-no-fold-iterator".into()
+    }
+}
+
 fn scope_verdict(text: &str) -> Found {
     let mut out: Found = vec![];
     if let Err(why) = scope_check(text) {
         if why != "unreadable" && why != "malformed" {
-            let class: String = if why.contains("next") { "next-outside-its-fold".into() } else if why.contains("neither") { classify_scope(text) } else { "other".into() };
+            let class: String = if why.contains("next") { next_class(text, &why) } else if why.contains("neither") { classify_scope(text) } else { "other".into() };
             out.push((format!("C23/accepted-script-is-not-well-scoped/{class}"), format!("{text}: {why}")));
         }
     }
@@ -403,7 +415,7 @@ pub fn c23_text2(text: &str) -> (Found, bool) {
             }
             if let Err(why) = scope_check(text) {
                 if why != "unreadable" && why != "malformed" {
-                    let class: String = if why.contains("next") { "next-outside-its-fold".into() } else if why.contains("neither") { classify_scope(text) } else { "other".into() };
+                    let class: String = if why.contains("next") { next_class(text, &why) } else if why.contains("neither") { classify_scope(text) } else { "other".into() };
                     out.push((format!("C23/accepted-script-is-not-well-scoped/{class}"), format!("{text}: {why}")));
                 }
             }
@@ -524,6 +536,14 @@ fn scope_mutations(text: &str) -> Vec<(String, String)> {
     }
     // 3. a next for an iterator that does not exist, at top level
     out.push(("next-without-fold".into(), format!("(seq {text} (next nofold))")));
+    // 3b. a next on a name that an earlier call defined as a scalar (no fold has it as iterator)
+    if let Some(i) = text.find("(call ") {
+        let end = matching_close(text, i);
+        let call_text = &text[i..end];
+        if let Some(out_name) = call_text.trim_end_matches(')').rsplit(']').next().map(|t| t.trim()).filter(|t| !t.is_empty() && t.chars().all(|c| c.is_ascii_alphanumeric() || c == '_')) {
+            out.push(("next-on-an-earlier-scalar".into(), format!("(seq {text} (next {out_name}))")));
+        }
+    }
     // 4. swap the two branches of each seq (moves uses before definitions)
     fn seqs(s: &Sx, out: &mut Vec<usize>) {
         if let Sx::List(items, at) = s {
